@@ -8,7 +8,7 @@ from ..refmodel.jets import Jet
 
 PROPERTY = 'C10'
 LEVEL = 'exploration'
-RULE = ('cases = (start, end) in {zbl, bornmayer, buck, morse, coul+buck, polynomial}^2 (positive and non-positive end values) x '
+RULE = ('cases = (start, end) in {zbl, bornmayer, buck, morse, coul+buck, polynomial, exp_spline with C != 0, custom formula}^2 (positive and non-positive end values) x '
         '(detach, attach) lattice incl. integer-typed knots x r_min (3 interior points, buck4 type) x three constructions {Python classes, '
         'spline() modifier with > / >= markers, as.buck4 vs its documented long form}; each spline probed at 25+ separations (knots, '
         'nextafter neighbours, +-1e-6, interior lattice, outside); every case executed; non-trivial = every case (all end potentials curved)')
@@ -19,12 +19,13 @@ ASSUMPTIONS = [
     'end potential has no analytic derivative; no spline of the lattice is skipped',
     'lattices of knots and potentials, not all reals',
 ]
-BOUNDS = {'quick': '49 end pairs (incl. a custom formula) x 18 knot pairs (integer-typed and far windows up to 11-12 A) x {exp_spline, buck4_spline x 3 r_min}', 'thorough': '49 end pairs x 34 knot pairs x 5 r_min'}
+BOUNDS = {'quick': '64 end pairs (incl. a custom formula) x 18 knot pairs (integer-typed and far windows up to 11-12 A) x {exp_spline, buck4_spline x 3 r_min}', 'thorough': '64 end pairs x 34 knot pairs x 5 r_min'}
 
 ENDS = {
     'zbl': form('zbl', 14, 8), 'bornmayer': form('bornmayer', 850.0, 0.35), 'buck': form('buck', 1000.0, 0.3, 32.0),
     'morse': form('morse', 1.8, 2.0, 0.6), 'coul+buck': mod('sum', form('coul', 2.4, -1.2), form('buck', 500.0, 0.32, 12.0)),
     'polynomial': form('polynomial', 3.0, -1.0, 0.2),
+    'exp_spline+C': form('exp_spline', 0.5, -0.8, 0.05, 0.0, 0.0, 0.0, 0.75),     # as.exp_spline with a non-zero constant term as an end potential
     'custom': {"custom": "mix", "params": [700.0, 0.4]},      # a [Potential-Form] formula: no analytic derivatives, only through the spline() modifier
 }
 
